@@ -34,6 +34,9 @@ def run(chk, ctx) -> None:
     _divmod(re, ctx)
     _mirror_transfer(re, ctx, chip_writers(ctx))
     chk.floor('C02.amounts', 18)
+    # only tabled cards take part in the showdown: the face-up flags of a partial show cover exactly the named cards
+    from .cover import showing_components
+    showing_components(Refile(chk, {'C12.show_flags': 'C02.hand_source'}), ctx)
 
 
 def _eligible(chk, ctx) -> None:
